@@ -66,6 +66,8 @@ type vfSession struct {
 
 	lastChallenge string
 	lastSignResp  []byte
+	lastWAChallenge string
+	lastWAResp      []byte
 }
 
 func (w *vfWorld) session(name string) *vfSession {
@@ -520,7 +522,13 @@ func (w *vfWorld) prepareStep(st vfStep) *vfPrepared {
 		r.Form = url.Values{"OTP": {val}}
 		p.call = w.prepare(r)
 		p.after = func(resp *vfResp) {
-			if resp.Code == 200 && who == subject {
+			upgraded := false
+			if c, ok := resp.Cookies[authCookieName]; ok && c.Value != "" {
+				if pl := vfJWTPayload(c.Value); pl != nil && int(jnum(pl, "auth_type"))&AuthTypeBootstrapOTP != 0 {
+					upgraded = true // honoured, whatever the status code says
+				}
+			}
+			if (resp.Code == 200 || upgraded) && who == subject {
 				f.BootstrapUsed = true
 			}
 		}
@@ -716,6 +724,12 @@ func (w *vfWorld) runPlan(steps []vfStep) {
 				group = append(group, p)
 			}
 		}
+		if w.pendingDBFault > 0 && len(group) > 0 && group[0].call != nil {
+			w.primary.arm("error", w.pendingDBFault)
+			w.fault("db.stmt.error")
+			w.armedForStep = true
+			w.pendingDBFault = 0
+		}
 		w.groupHasRightInject = false
 		for _, p := range group {
 			if p.intent != nil && p.intent.Inject != nil && p.intent.Inject.Right && p.step.Par != 0 {
@@ -743,9 +757,17 @@ func (w *vfWorld) runPlan(steps []vfStep) {
 		} else if len(fns) > 0 {
 			w.sched.runGroup(names, fns)
 		}
+		if w.armedForStep {
+			if fired, _ := w.primary.disarm(); fired {
+				w.probe("db-fault-fired-in-request")
+				w.faultedThisStep = true
+			}
+			w.armedForStep = false
+		}
 		for _, p := range group {
 			w.finishStep(p)
 		}
+		w.faultedThisStep = false
 		w.res.Steps += j - i
 		i = j
 		if len(w.res.Violations) > 0 && w.stopOnViolation {
